@@ -262,3 +262,51 @@ func VerifLexStream(args []string) {
 		vAssert(l.NextToken() == l.EOLEOF(), "end-marker-repeats")
 	}
 }
+
+func init() {
+	verifHarness["VerifLexLong"] = VerifLexLong
+}
+
+// VerifLexLong: long tokens are lexed like short ones: one token spanning the whole literal, and the same bytes
+// lexed by another lexer give the same shared object. args: kind (string|raw|linecomment|blockcomment|number|ident), length
+func VerifLexLong(args []string) {
+	kind, n := args[0], verifAtoi(args[1])
+	fill := byte('a')
+	if kind == "number" {
+		fill = '7'
+	}
+	body := make([]byte, n)
+	for i := range body {
+		body[i] = fill
+	}
+	// one arbitrary byte of the right class in the middle
+	c := vByte("mid")
+	if kind == "number" {
+		vAssume(c >= '0' && c <= '9')
+	} else {
+		vAssume(c >= 'a' && c <= 'z' || c >= 'A' && c <= 'Z')
+	}
+	body[n/2] = c
+	var in []byte
+	switch kind {
+	case "string":
+		in = append(append([]byte{'"'}, body...), '"')
+	case "raw":
+		in = append(append([]byte{'`'}, body...), '`')
+	case "linecomment":
+		in = append([]byte("//"), body...)
+	case "blockcomment":
+		in = append(append([]byte("/*"), body...), []byte("*/")...)
+	default:
+		in = body
+	}
+	l1 := &Lexer{input: in, lineNumber: 1}
+	t1 := l1.NextToken()
+	vReach("long token lexed")
+	vAssert(l1.pos == len(in), "long/token-spans-the-whole-literal")
+	vAssert(len(t1.Literal()) >= n, "long/literal-is-complete")
+	l2 := &Lexer{input: append([]byte{}, in...), lineNumber: 1}
+	t2 := l2.NextToken()
+	vAssert(t1 == t2, "long/interning-same-pointer")
+	vAssert(l1.NextToken() == l1.EOLEOF(), "long/end-marker-follows")
+}
